@@ -113,6 +113,8 @@ pub struct Plan {
     pub cancel_at: Option<u32>,
     /// F-stuck (async kinds): gates that never become ready (a branch that stays pending forever)
     pub stuck: BTreeSet<(u32, u32)>,
+    /// F-waker (async kinds): every poll of a task is given a fresh waker and wake-ups through older wakers are ignored
+    pub fresh_wakers: bool,
 }
 
 impl Default for Plan {
@@ -129,6 +131,7 @@ impl Default for Plan {
             batch_pm: 0,
             cancel_at: None,
             stuck: BTreeSet::new(),
+            fresh_wakers: false,
         }
     }
 }
@@ -182,6 +185,7 @@ impl Global {
                 batch_pm: 0,
                 cancel_at: None,
                 stuck: BTreeSet::new(),
+                fresh_wakers: false,
             },
             log: Vec::new(),
             occ: BTreeMap::new(),
